@@ -190,7 +190,9 @@ def run_synthetic(spec, out, rng):
     from ..capture import same_value
     from .c04 import abstract_text
 
+    import re
     compile_ = _orig.get("compile", pyc.compile)
+    ring = []  # earlier compilations: (fn, n_in, result then)
     for i in range(spec["nsyn"]):
         try:
             graph, n_in, feats = build_graph(rng)
@@ -211,8 +213,27 @@ def run_synthetic(spec, out, rng):
             out.violation({"kind": "codegen-failed", "exc": type(e).__name__, "risk": risk}, {"feats": sorted(feats), "error": str(e)[:600]}, f"code generation failed on a synthetic graph: {type(e).__name__}: {str(e)[:200]}")
             continue
 
-        def inputs():
+        # the header announces exactly the constants the body uses, and the function's namespace binds them
+        consts = re.findall(r"^# Constant (const\d+):", text, flags=re.M)
+        used = set(re.findall(r"\bconst\d+\b", "\n".join(l for l in text.splitlines() if not l.lstrip().startswith("#"))))
+        if used != set(consts) or any(c not in getattr(fn, "__globals__", {}) for c in consts):
+            out.violation({"kind": "header-constants-differ-from-body"}, {"text": text, "header": sorted(consts), "body": sorted(used)}, f"synthetic graph: header announces {sorted(consts)}, body uses {sorted(used)}")
+            continue
+
+        def inputs(n_in=n_in):
             return [(np.arange(4.0) + 10 * k + 1).view(CountArr) for k in range(n_in)]
+
+        # an earlier compiled function, called again after this compilation, still returns what it returned then
+        if ring:
+            fn0, n0, val0 = ring[rng.randrange(len(ring))]
+            try:
+                again = ("ok", fn0(*[(np.arange(4.0) + 10 * k + 1).view(CountArr) for k in range(n0)]))
+            except Exception as e:  # noqa
+                again = ("exc", type(e).__name__)
+            if again[0] != "ok" or not same_value(again[1], val0):
+                out.violation({"kind": "compiled-function-changed-by-later-compilation"}, {"text_of_later": text}, f"synthetic graph: a function compiled earlier behaves differently after a later compilation ({again[0]})")
+            else:
+                out.count("synthetic_earlier_function_unchanged")
 
         a1, a2 = inputs(), inputs()
         COUNTS.clear()
@@ -246,5 +267,9 @@ def run_synthetic(spec, out, rng):
                           f"synthetic graph: evaluation counts differ (compiled {dict((k, c1.get(k, 0)) for k in diff)} vs interpreter {dict((k, c2.get(k, 0)) for k in diff)})")
             continue
         out.count("synthetic_checked")
+        if r1[0] == "ok" and "nested-graph" not in feats:
+            ring.append((fn, n_in, r1[1]))
+            if len(ring) > 12:
+                ring.pop(rng.randrange(len(ring)))
         if text.count("\n") >= 3:
             out.distinct_key("syn|" + abstract_text(text))
